@@ -750,3 +750,46 @@ def router_part(ctx):
         assumptions=['Machine::protocol::<Arp>() returns an opaque Arp; tokio::spawn is modelled as recording the future\'s captured variables without running it',
                      'native replay can observe only panic / return value of demux, the real IpTable lookup and the real header re-serialisation; a violation located purely in the '
                      'forwarding glue (which next hop / interface / packet is captured) cannot be confirmed natively and is reported INCONCLUSIVE (exit 2)'])
+
+
+def demux_drop_native_replay(v):
+    from mirx import native
+    u = v['unit']
+    vals = v.get('values', {})
+    g = lambda k, d=0: int(vals.get(k, d))
+    n, layer = u['nbytes'], u['layer']
+    raw = [g(f'raw{i}') & 0xff for i in range(n)]
+    L = ['#[test]\nfn mirx_replay_0() {', '    println!("\\nREPLAY-BEGIN mirx_replay_0");',
+         '    let machine = Arc::new(Machine::new().with(Udp::new()).with(Ipv4::new(Default::default())).with(Rec::<0>));',
+         f'    let raw: Vec<u8> = vec!{raw}; let mut bad: Vec<String> = Vec::new(); GOT.lock().unwrap().clear();']
+    if layer == 'udp':
+        L.append(f'    let udp = machine.protocol::<Udp>().unwrap(); udp.listen(TypeId::of::<Rec<0>>(), Endpoint::new(Ipv4Address::from(0u32), {g("bport") & 0xffff}), machine.clone()).unwrap();')
+        L.append(f'    let iph = Ipv4Header {{ ihl: 5, type_of_service: TypeOfService::from(0u8), total_length: {20 + n}, identification: 1, fragment_offset: 0, flags: ControlFlags::new(true, true), time_to_live: 9, protocol: 17, checksum: 0, source: Ipv4Address::from({g("src") & 0xffffffff}u32), destination: Ipv4Address::from({g("dst") & 0xffffffff}u32) }};')
+        L.append('    let mut control = Control::new(); control.insert(iph);')
+        L.append('    let r = std::panic::catch_unwind(std::panic::AssertUnwindSafe(|| crate::Protocol::demux(&*udp, Message::new(raw.clone()), Arc::new(Dummy), control, machine.clone())));')
+        L.append('    let wellformed = raw.len() >= 8 && (((raw[4] as usize) << 8) | raw[5] as usize) == raw.len() && raw[6] == 0 && raw[7] == 0;')
+    else:
+        L.append('    let ip = machine.protocol::<Ipv4>().unwrap(); let control = Control::new();')
+        L.append('    let r = std::panic::catch_unwind(std::panic::AssertUnwindSafe(|| crate::Protocol::demux(&*ip, Message::new(raw.clone()), Arc::new(Dummy), control, machine.clone())));')
+        L.append('    let wellformed = false;')
+    L.append('    let got = GOT.lock().unwrap().clone();')
+    L.append('    match r { Err(_) => bad.push("demux panicked".into()), Ok(res) => { if !got.is_empty() && !wellformed { bad.push(format!("malformed frame delivered: {:?}", got)); } if got.is_empty() && res.is_ok() { bad.push("dropped without an error".into()); } } }')
+    L.append('    println!("OP 0 RESULT {}", if bad.is_empty() { "AGREE".to_string() } else { bad.join(" | ") });')
+    L.append('}')
+    out, rc = native.run_tests(UDP_REPLAY + '\n'.join(L), append_to='src/protocols/udp.rs', test_filter='mirx_replay_0')
+    lines = native.op_lines(out)
+    if not lines:
+        return False, 'native replay did not run: ' + out[-600:]
+    return ('AGREE' not in lines[0]), lines[0]
+
+
+def demux_drop_part(ctx):
+    from mirx import udpspec
+    return generic_part(
+        ctx, 'drop-at-layer', udpspec.malformed_units(ctx.tier), udpspec.worker,
+        unit_name=lambda u: f'{u["layer"]} demux on {u["nbytes"]} arbitrary bytes',
+        unit_desc='real Udp::demux / Ipv4::demux MIR with the real header decoders and the real Message on arbitrary symbolic bytes; machine, Control, DashMap and applications modelled',
+        replay_fn=demux_drop_native_replay,
+        bounds='UDP layer: 0/7/8/10 (thorough 0,1,4,7,8,9,12) arbitrary bytes with one wildcard binding on a symbolic port; IPv4 layer: 0/19/20/22 (thorough up to 24) arbitrary bytes, no binding',
+        outside='TCP and ARP demux (Tcp::demux spawns sessions, Arp::demux replies through Pci: async environment); "the simulation keeps running" (runtime)',
+        assumptions=['environment as in the C04 part (Machine lookup, Control, DashMap, recording applications modelled)'])
